@@ -17,25 +17,25 @@ FA = "x.fa"
 
 TIERS = {
     "quick": dict(
-        export=[("seq", '{"p1"}', 4, 2, 0, "FALSE", "TRUE", 3), ("crash", '{"p1"}', 3, 2, 0, "TRUE", "TRUE", 2),
+        export=[("seq", '{"p1"}', 4, 2, 0, "FALSE", "TRUE", 3), ("crash", '{"p1"}', 4, 2, 0, "TRUE", "TRUE", 3),
                 ("race", '{"p1", "p2"}', 2, 1, 2, "FALSE", "FALSE", 2)],
         mc=[("seq", '{"p1"}', 4, 2, 0, "FALSE", "TRUE", 3), ("crash", '{"p1"}', 3, 2, 0, "TRUE", "TRUE", 3),
             ("race", '{"p1", "p2"}', 2, 1, 2, "FALSE", "FALSE", 3)],
-        cap=2500),
+        cap=3000, ciw="ends"),
     "thorough": dict(
         export=[("seq", '{"p1"}', 4, 2, 0, "FALSE", "TRUE", 4), ("crash", '{"p1"}', 4, 2, 0, "TRUE", "TRUE", 3),
                 ("race", '{"p1", "p2"}', 2, 1, 3, "FALSE", "FALSE", 3), ("race3", '{"p1", "p2", "p3"}', 2, 1, 2, "FALSE", "FALSE", 3),
                 ("racecrash", '{"p1", "p2"}', 3, 2, 2, "TRUE", "TRUE", 3)],
         mc=[("seq", '{"p1"}', 4, 2, 0, "FALSE", "TRUE", 4), ("crash", '{"p1"}', 4, 2, 0, "TRUE", "TRUE", 3),
             ("race3", '{"p1", "p2", "p3"}', 2, 1, 3, "FALSE", "FALSE", 3), ("racecrash", '{"p1", "p2"}', 4, 2, 2, "TRUE", "TRUE", 3)],
-        cap=20000),
+        cap=25000, ciw="all"),
 }
 
 
-def cfg_text(procs, nbf, nba, maxclock, maxver, proto, maxswitch, crash, hist, starts, props=True, emit=False):
+def cfg_text(procs, nbf, nba, maxclock, maxver, proto, maxswitch, crash, hist, starts, props=True, emit=False, ciw="all"):
     t = ("SPECIFICATION Spec\nCONSTANTS Procs = %s NBfai = %d NBagp = %d MaxClock = %d MaxVer = %d Protocol = \"%s\" MaxSwitch = %d "
-         "AllowCrash = %s AllowHistory = %s MaxStarts = %d StrictNewer = TRUE\nVIEW View\nCHECK_DEADLOCK FALSE\n"
-         % (procs, nbf, nba, maxclock, maxver, proto, maxswitch, crash, hist, starts))
+         "AllowCrash = %s AllowHistory = %s MaxStarts = %d StrictNewer = TRUE FlushModes = {TRUE, FALSE} CrashInWrites = \"%s\"\nVIEW View\nCHECK_DEADLOCK FALSE\n"
+         % (procs, nbf, nba, maxclock, maxver, proto, maxswitch, crash, hist, starts, ciw))
     if props:
         t += "PROPERTY CacheSafe\nPROPERTY RebuildBoth\nINVARIANT PublishedComplete\n"
     if emit:
@@ -129,7 +129,9 @@ def replay(sc):
     try:
         try:
             for kind, arg in sc["tokens"]:
-                if kind == "b":
+                if kind == "f":
+                    s.flushy = arg == "1"
+                elif kind == "b":
                     live = [q for q in s.pending]
                     conc[arg] = bool(live)
                     for q in live:
@@ -164,7 +166,7 @@ def replay(sc):
             hang = 1
     finally:
         s.uninstall()
-    return {"tid": sc["tid"], "cls": sc["cls"], "tokens": sc["tokens"], "events": s.events, "hang": hang,
+    return {"tid": sc["tid"], "cls": sc["cls"], "tokens": sc["tokens"], "events": s.events, "hang": hang, "flushy": 1 if s.flushy else 0,
             "truth": [box.truth[1], box.truth[2]]}
 
 
@@ -203,19 +205,32 @@ def main(tier, replay_path=None):
         # 2. behaviours: one shortest schedule per distinct quiet state, real block counts
         rng = random.Random(C.seed())
         for name, procs, mclk, mver, msw, crash, hist, starts in cfg["export"]:
-            r = C.tlc_ok(C.tlc("IndexCache", cfg_text(procs, nbf, nba, mclk, mver, proto, msw, crash, hist, starts, props=False, emit=True),
+            r = C.tlc_ok(C.tlc("IndexCache", cfg_text(procs, nbf, nba, mclk, mver, proto, msw, crash, hist, starts, props=False, emit=True, ciw=cfg["ciw"]),
                                run.dir, name=f"export_{name}", workers=1, timeout=1500), "behaviour export " + name)
-            hs = [h for h in C.emitted(r["out"]) if isinstance(h, list) and h]
+            em = [h for h in C.emitted(r["out"]) if isinstance(h, dict) and h.get("h")]
+            seen = set()
+            risky, rest = [], []
+            for e in em:
+                k = json.dumps(e["h"])
+                if k in seen:
+                    continue
+                seen.add(k)
+                (risky if e["pri"] else rest).append(e["h"])
             mcs.append({"config": "export_" + name, "protocol": proto, "states": r["distinct"], "generated": r["generated"],
-                        "behaviours": len(hs), "wall_s": r["wall_s"]})
-            if len(hs) > cfg["cap"]:
-                hs = rng.sample(hs, cfg["cap"])
+                        "behaviours": len(risky) + len(rest), "risky_behaviours": len(risky), "wall_s": r["wall_s"]})
+            # all schedules in which a run loads the cache after a crash / FASTA rewrite (up to the cap), a seeded sample of the others
+            if len(risky) > cfg["cap"]:
+                risky = rng.sample(risky, cfg["cap"])
+            room = max(cfg["cap"] // 3, cfg["cap"] - len(risky))
+            if len(rest) > room:
+                rest = rng.sample(rest, room)
+            hs = risky + rest
             scen += [{"tokens": h, "cls": name} for h in hs]
     for i, s in enumerate(scen, 1):
         s["tid"] = i
     traces = C.pmap("harness.c15", "replay", scen, chunk=50)
     consts = (f'Procs = {{"p1", "p2", "p3"}} NBfai = {nbf} NBagp = {nba} MaxClock = 99 MaxVer = 2 Protocol = "{proto}" MaxSwitch = 99 '
-              "AllowCrash = TRUE AllowHistory = TRUE MaxStarts = 99 StrictNewer = TRUE")
+              "AllowCrash = TRUE AllowHistory = TRUE MaxStarts = 99 StrictNewer = TRUE FlushModes = {TRUE, FALSE} CrashInWrites = \"all\"")
     jr = C.judge("IndexCacheTrace", traces, run.dir, consts=consts, shard=max(100, len(traces) // 16 + 1), spec="JudgeSpec")
     by = {t["tid"]: t for t in traces}
     n = C.report(run, "C15", jr["V"], by)
